@@ -247,7 +247,7 @@ static const char* siteFile(int s) { static const char* const f[N_SITES] = { "si
 static size_t siteLine(int s) { static const size_t l[N_SITES] = { 10, 20, 11, 10 }; return l[s % N_SITES]; }
 
 // ------------------------------------------------------------------------------------------------ model
-struct MBlock { bool live, tracked; char* p; size_t size; int family; int route; unsigned number; Str file; size_t line; int period; unsigned char stage; Str allocName, typeName; uint64_t pat; bool guardDirty; TestMemoryAllocator* allocator; };
+struct MBlock { bool live, tracked; char* p; size_t size; int family; int route; unsigned number; Str file; size_t line; int period; unsigned char stage; Str allocName, typeName; uint64_t pat; bool guardDirty; TestMemoryAllocator* allocator; unsigned char guard0[8]; /* the guard bytes as the detector wrote them, whatever its pattern is */ };
 static const uint64_t PCT_SEED = 0x25252525ULL;      // blocks whose content is full of printf metacharacters (a dump must never use content as a format)
 static unsigned char patByte(uint64_t seed, size_t i) { if (seed == PCT_SEED) return (unsigned char)"%s%n%d%%%s%x%n"[i % 14]; return (unsigned char)(0x30 + ((seed * 7 + i * 13) % 64)); }
 static void fillPat(MBlock& b) { size_t n = b.size > 4096 ? 4096 : b.size; for (size_t i = 0; i < n; i++) b.p[i] = (char)patByte(b.pat, i); if (b.size > 4096) for (size_t i = b.size - 64; i < b.size; i++) b.p[i] = (char)patByte(b.pat, i); }
@@ -338,7 +338,7 @@ struct Engine : public vf::Engine {
                 else o.kind = H_QUERY;
             } else if (mis) {
                 if (x < 30) { o.kind = H_ALLOC; o.a = (int64_t)w.below((uint64_t)nSlots); o.b = (int64_t)w.below(3); o.c = w.chance(3, 4) ? w.range(0, 64) : w.range(0, 600); o.phase = (int)w.below(3); o.s = siteFile((int)w.below(N_SITES)); }
-                else if (x < 55) { o.kind = H_FLIP; o.a = (int64_t)w.below((uint64_t)nSlots); unsigned rg = (unsigned)w.below(10); o.b = rg < 3 ? 0 : (rg < 8 ? 1 : 2); o.c = (int64_t)w.below(600); o.d = (int64_t)w.below(256); if (w.chance(1, 8)) o.d = "BAS"[o.c % 3]; }
+                else if (x < 55) { o.kind = H_FLIP; o.a = (int64_t)w.below((uint64_t)nSlots); unsigned rg = (unsigned)w.below(10); o.b = rg < 3 ? 0 : (rg < 8 ? 1 : 2); o.c = (int64_t)w.below(600); o.d = (int64_t)w.below(256); if (w.chance(1, 8)) o.d = w.chance(1, 2) ? -1 : -2; }      // -1: the value the byte holds now, -2: the value the detector wrote there
                 else if (x < 78) { o.kind = H_FREE; o.a = (int64_t)w.below((uint64_t)nSlots); o.b = w.chance(2, 3) ? 0 : w.range(1, 3); o.c = w.chance(1, 3) ? w.range(1, 4) : 0; }
                 else if (x < 84) { o.kind = H_BADFREE; o.a = (int64_t)w.below(5); o.b = (int64_t)w.below(3); o.c = (int64_t)w.below(600); o.phase = (int)w.below(3) == 2 ? 2 : 0; }
                 else if (x < 87) { o.kind = H_TYPECHECK; o.a = (int64_t)w.below(2); }
@@ -623,7 +623,7 @@ struct Engine : public vf::Engine {
                 checkNewBlock(W, oi, on, p, size);
                 if (o.kind == H_CALLOC) { for (size_t k = 0; k < size; k++) if (p[k]) { fail(W, "C05", "calloc_zero", sfmt("op %zu: byte %zu of a calloc'ed block of %zu is 0x%02x", oi, k, size, (unsigned char)p[k])); break; } }
                 if (o.kind == H_STRDUP) { if (memcmp(p, src.data(), size - 1) != 0 || p[size - 1] != 0) fail(W, "C05", "strdup_copy", sfmt("op %zu: copy differs or is unterminated (length %zu)", oi, size - 1)); }
-                if (HEAP.find(p) && p + size <= HEAP.find(p)->base + HEAP.find(p)->size) fillPat(S); else S.p = 0;
+                if (HEAP.find(p) && p + size <= HEAP.find(p)->base + HEAP.find(p)->size) { fillPat(S); if (p + size + GUARD <= HEAP.find(p)->base + HEAP.find(p)->size) for (size_t k = 0; k < (size_t)GUARD && k < 8; k++) S.guard0[k] = (unsigned char)p[size + k]; } else S.p = 0;
                 r.nontrivial = true;
                 break;
             }
@@ -705,6 +705,7 @@ struct Engine : public vf::Engine {
                     size_t bad = 0; MBlock probeB = S; probeB.size = keep + 1;      // (+1: only the patterned prefix is compared, not a tail that was never filled)
                     if (!checkPat(probeB, keep, &bad)) fail(W, "C05", "realloc_preserves", sfmt("op %zu: byte %zu of the first %zu bytes changed across realloc %zu -> %zu", oi, bad, keep, old.size, size));
                     fillPat(S);
+                    if (np + size + GUARD <= HEAP.find(np)->base + HEAP.find(np)->size) for (size_t k = 0; k < (size_t)GUARD && k < 8; k++) S.guard0[k] = (unsigned char)np[size + k];
                 } else S.p = 0;
                 r.nontrivial = true;
                 break;
@@ -769,8 +770,8 @@ struct Engine : public vf::Engine {
                 if (o.b == 0) { if (S.size == 0) break; size_t idx = (size_t)o.c % S.size; S.p[idx] = (char)o.d; S.pat = S.pat; /* keep the pattern consistent */ S.p[idx] = (char)patByte(S.pat, idx); probe("write_inside_user_bytes");
                     // a write inside the user bytes is the caller's right; rewrite with another value and restore so the pattern check stays meaningful
                 }
-                else if (o.b == 1) { if (!GUARD) break; size_t idx = (size_t)o.c % GUARD; char before = S.p[S.size + idx]; S.p[S.size + idx] = (char)o.d; if (before != (char)o.d) { S.guardDirty = true; fired("flip_guard_byte"); } else probe("same_value_guard_write");
-                    bool anyDiff = false; for (size_t k = 0; k < (size_t)GUARD; k++) if (S.p[S.size + k] != "BAS"[k]) anyDiff = true; S.guardDirty = anyDiff; }
+                else if (o.b == 1) { if (!GUARD) break; size_t idx = (size_t)o.c % GUARD; char before = S.p[S.size + idx]; char val = o.d == -1 ? before : (o.d == -2 ? (char)S.guard0[idx] : (char)o.d); S.p[S.size + idx] = val; if (before != val) { S.guardDirty = true; fired("flip_guard_byte"); } else probe("same_value_guard_write");
+                    bool anyDiff = false; for (size_t k = 0; k < (size_t)GUARD; k++) if ((unsigned char)S.p[S.size + k] != S.guard0[k]) anyDiff = true; S.guardDirty = anyDiff; }
                 else { if (!GUARD || pad == 0) break; size_t idx = (size_t)o.c % pad; Block* b = HEAP.find(S.p); if (!b || S.p + S.size + GUARD + idx >= b->base + b->size) break; S.p[S.size + GUARD + idx] = (char)o.d; fired("flip_padding_byte"); }
                 break;
             }
